@@ -254,6 +254,7 @@ func H12_serve() {
 	}
 	var err error
 	crashed := vCatch(func() { err = ServeAgent(m12Agent{}, c) })
+	vRunGoroutines()
 	vFact("frames", nf)
 	if nf > 0 {
 		vFact("first-frame-len", int(c.in[3]))
